@@ -243,6 +243,8 @@ for name in sorted(os.listdir(src)):
     os.makedirs(out, exist_ok=True)
     for f in os.listdir(d):
         if f in ("patch.diff", "demo.sh") or f.endswith("_test.go"):
+            if f == "patch.diff" and os.path.exists(os.path.join(out, "patch.as-delivered.diff")):
+                continue  # re-diffed against the current tree by hand (the delivered patch is kept next to it)
             shutil.copy(os.path.join(d, f), os.path.join(out, f))
     rnd = {"1": 1, "2": 1, "3": 2, "4": 2, "5": 3, "6": 3, "7": 4, "8": 4, "9": 5, "10": 5, "11": 6, "12": 6, "13": 7, "14": 7, "15": 8, "16": 8, "17": 9}[name.split("-")[1]]
     new = {
@@ -271,6 +273,12 @@ for name in sorted(os.listdir(src)):
     if neutral:
         new["neutralised_by_repair"] = NEUTRALISED[name]
         new["caught"] = False
+    try:
+        prev = json.load(open(os.path.join(out, "meta.json")))
+        if "patch_note" in prev:
+            new["patch_note"] = prev["patch_note"]  # hand-written remark on a re-diffed patch survives regeneration
+    except (OSError, ValueError):
+        pass
     json.dump(new, open(os.path.join(out, "meta.json"), "w"), indent=1, ensure_ascii=False)
     rows.append(new)
 
